@@ -234,6 +234,9 @@ def r_emitted_is_updated(r, prog):
         r.finding('emitted-not-updated', m.span, 'emit_diagnostics / get_totals are not given the result of into_updated (%s / %s)' % ([vexpr(m, c.args[1], depth=6)[:50] for c in em], [vexpr(m, c.args[0], depth=6)[:50] for c in gt]))
     r.floor(2)
 
+import decisions
+
+
 def run(ctx):
     prog = ctx.prog
     ctx.run_rule('C15.1a', 'T1', 'no hash container is iterated or debug-printed', r_no_hash_iteration, prog)
@@ -246,6 +249,7 @@ def run(ctx):
     ctx.run_rule('C15.4b', 'T2', 'no report is gated by first-seen state that outlives the element', r_no_first_seen_gating, prog)
     from props import c03 as _c03
     from props import c07 as _c07
+    ctx.run_rule('C15.3c', 'T2', 'every file is parsed whatever the other files contain', decisions.r_every_file_parsed, prog)
     ctx.run_rule('C15.6', 'T2', 'whether the inputs are compiled does not depend on how they are split between sources and references', _c07.r_every_input_compiled, prog)
     ctx.run_rule('C15.2c', 'T1', 'which element a name denotes does not depend on the order of the files: definitions are last-writer-wins, a module never takes a name', _c03.r_name_table_single_writer, prog)
     ctx.run_rule('C15.2b', 'T1', 'the table of seen definitions is written only by the step that also checks and reports', r_symmetric_redefinition_table, prog)
